@@ -6,6 +6,11 @@ COMMON_NOTE = ("Trusted: Lean 4.33 kernel; axioms limited to propext/Quot.sound/
                "lean/MoreExec/Props. Correspondence covers the explored schedules only; the universal claim is about the model.")
 
 PROPS = {
+    "C19": dict(
+        technique="Lean 4 proofs by induction over any with_* chain (bind commutes with chaining, flat_bind = bind + flat_map identity, name inheritance) on a model whose wiring facts K9 are regenerated from wrap.py/executors.py/bind.py and decided; paired-program differential of the real bind form vs executor form",
+        level_text="Machine-checked theorems for chains of any length applied before and/or after bind: the bound callable ends up bound to exactly the executor stack that chaining the executor directly builds (same layers, same order, same names, same fn), flat_bind adds one flat-map identity layer, and every layer created from a named base carries that name unless one is given. The wiring facts the model depends on are extracted from the source on every run and a decide-proof checks them. The differential runs both forms side by side on random chains, callable kinds and outcome scripts and compares outcomes, invocation counts and created thread names.",
+        design_ref="DESIGN.md section 6 C19",
+        level_note="Modelled, not verified: equal stacks behave equally (C01); K9 is a pattern-based extraction (a harmless rewrite of those few lines breaks the obligation and triggers the differential search)."),
     "C17": dict(
         technique="Lean 4: forwarding table K8 regenerated from proxy.py/nocancel.py and decided transparent (decide over the whole table); operator protocol modelled as a parameter with theorems for every operand semantics (operator form transparent, direct dunder call not); differential of every forwarded operation x operand types on the real f_proxy; non-blocking / timeout / f_nocancel under a deterministic scheduler",
         level_text="Machine-checked: for every semantics of the operand types, a proxy method written as the operator/builtin applied to the result is transparent including the reflected fall-back, while a direct dunder call is not (witness theorems); the table of how each ProxyFuture method reaches the result is regenerated from the source on every run and a decide-proof shows every Python-3 forwarded method is of the transparent kind, that bool/unknown-dunder lookups never touch the result and repr/str/eq/hash are not forwarded, and that NoCancelFuture.cancel is the constant False. The differential runs each forwarded operation over ~12k operand combinations across the builtin types on the real proxy and the plain value.",
